@@ -485,6 +485,12 @@ def check(ctx):
             INT_CASES.append((lb, ub, False, v))
     for lb, ub, v in ((0, 7, 5), (0, 7, 8), (0, 7, -1), (0, 7, 1000), (0, 255, 256), (1, 256, 0), (0, 65536, 70000), (0, 65536, 3)):
         INT_CASES.append((lb, ub, True, v))
+    SUB_CASES = []
+    for parent, (lb, ub), vals in (((0, 255, False), (200, 'MAX'), (200, 210, 255)), ((0, 255, False), ('MIN', 100), (0, 50, 100)), ((0, 255, False), (10, 20), (10, 15, 20)),
+                                   ((5, 'MAX', False), ('MIN', 100), (5, 6, 100)), ((0, 65535, False), (65000, 'MAX'), (65000, 65535)), ((0, 255, False), ('MIN', 'MAX'), (0, 128, 255)),
+                                   ((-100, 100, False), (0, 'MAX'), (0, 1, 100))):
+        for v in vals:
+            SUB_CASES.append((lb, ub, False, v, parent))
     for rel, aligned in ((PER, True), (UPER, False)):
         cm = model.mod(rel)
         icls = cm.classes.get('Integer')
@@ -497,22 +503,34 @@ def check(ctx):
         Dm = bitmachine.Machine(model, cm.classes.get('Decoder') or dec, 'dec', align_noop=not aligned)
         pe, pd = flow.param_names(fe), flow.param_names(fd)
 
-        def config(lb, ub, ext):
+        def config(lb, ub, ext, parent=None):
             _r, env = evalexpr.run_function(init, {flow.param_names(init)[1]: 'x', '__funcs__': bitmachine.module_funcs(init)}, skip_calls=True)
             sp = flow.param_names(srr)[1:]
-            env.update(dict(zip(sp, (lb, ub, ext))))
-            env['__funcs__'] = bitmachine.module_funcs(srr)
-            _r, env = evalexpr.run_function(srr, env, skip_calls=True)
+            # a subtype of an already constrained parent: the parent's range is applied first, then the subtype's on the same object (that is what the
+            # compilers do with the copy of the referenced type)
+            for lb_, ub_, ext_ in ([parent] if parent else []) + [(lb, ub, ext)]:
+                env = {k: v_ for k, v_ in env.items() if k.startswith('self.')}
+                env.update(dict(zip(sp, (lb_, ub_, ext_))))
+                env['__funcs__'] = bitmachine.module_funcs(srr)
+                _r, env = evalexpr.run_function(srr, env, skip_calls=True)
             return {k: v_ for k, v_ in env.items() if k.startswith('self.')}
         n_ok = n_und = 0
         first_bad = und = None
         groups = {}
-        for lb, ub, ext, v in INT_CASES:
+        for case in INT_CASES + SUB_CASES:
+            lb, ub, ext, v = case[:4]
+            parent = case[4] if len(case) > 4 else None
             label = 'INTEGER (%s..%s%s) value %d' % (lb, ub, ', ...' if ext else '', v)
+            elb, eub = lb, ub
+            if parent is not None:
+                # X.680 51.4.x: MIN / MAX in a subtype denote the bounds of the parent type; X.691 10.3: the effective constraint is what counts
+                elb = parent[0] if lb == 'MIN' else lb
+                eub = parent[1] if ub == 'MAX' else ub
+                label = 'A ::= INTEGER (%s..%s), B ::= A (%s..%s), value %d of B' % (parent[0], parent[1], lb, ub, v)
             try:
-                cfg = config(lb, ub, ext)
+                cfg = config(lb, ub, ext, parent)
                 bits, _ = Em.run_fn(fe, pe[2], [v, None], cfg, '101')
-                want = ref_integer('101', lb, ub, ext, v, aligned)
+                want = ref_integer('101', elb, eub, ext, v, aligned)
                 msg = None
                 if bits != want:
                     msg = 'X.691 prescribes %s after the 3-bit prefix, the encoder emits %s' % (want[3:] or '(nothing)', bits[3:] or '(nothing)')
@@ -529,7 +547,8 @@ def check(ctx):
             if msg is None:
                 n_ok += 1
             else:
-                kind = 'semi-constrained (lb..MAX)' if ub == 'MAX' and lb != 'MIN' else ('extensible' if ext else 'constrained' if ub != 'MAX' and lb != 'MIN' else 'unconstrained')
+                kind = 'subtype of a constrained parent' if parent is not None else \
+                    'semi-constrained (lb..MAX)' if ub == 'MAX' and lb != 'MIN' else ('extensible' if ext else 'constrained' if ub != 'MAX' and lb != 'MIN' else 'unconstrained')
                 groups.setdefault(kind, (label, msg))
         ctx.instance('C05.R8', '%s.Integer: %d (constraint, value) cases evaluated, %d undecided' % (cm.short, n_ok, n_und), 'VIOLATION' if groups else ('ok' if n_ok else 'undecided'), und or '',
                      nontrivial=n_ok > 0, node=fe, file=rel)
